@@ -97,9 +97,14 @@ class Sched:
             deadline = time.time() + wait
             while name not in self.want_reacquire and time.time() < deadline:
                 self.cv.wait(0.05)
+            n0 = len([x for x in self.log if x[0] == name])
             self.may_reacquire.add(name)
             self.cv.notify_all()
-        time.sleep(0.02)
+            # the step is over when the thread, lock in hand again, stands at its next traced line (reported, not yet
+            # executed): otherwise the following grant would be used up by that report and the thread fall one line behind
+            deadline = time.time() + 2.0
+            while (len([x for x in self.log if x[0] == name]) == n0 and name not in self.done and time.time() < deadline):
+                self.cv.wait(0.05)
 
     def await_wake(self, name, wait=4.0):
         """the model's wait_wake step: the thread's Condition.wait() ends (by a notify, or because its timeout elapses,
